@@ -17,6 +17,7 @@ enum { SUP_DIR = 0, SUP_FILES = 1, SUP_VALUE = 2, SUP_MIXED = 3 };   // mixed: c
 
 struct Ident {
     std::unique_ptr<Cert> leaf;
+    std::unique_ptr<Cert> twin;   // same issuer, validity, usage, names and revocation status, another key and common name ("<cn>-twin")
     int issuer = ISS_R0, validity = 0, eku = 0;
     bool revoked = false;
     std::string cn;
@@ -38,6 +39,7 @@ struct Setup {
     SideCfg cli, srv;
     bool accept_override = false, keep_open = false, reversed = false;
     int cli_ns = 0;              // the connecting thread's network namespace has a name: 1 entry in /run/netns is a (bind-mounted) file, 2 a symbolic link
+    int flips = 0;               // the client's credential files are rewritten (to the twin identity and back) this many times *while the library loads them*, once per load attempt
     bool accept_relax = false;   // the server got its whole policy (with explicit CA / CRL / names) at creation; the accept map switches one feature off
     std::string tp;
     int edit_before = 0;       // 0 none, 1 rewrite in place (equal size), 2 write-new + rename over, 3 symlink flip, 4 environment switch
@@ -92,6 +94,7 @@ static void gen(uint64_t seed, const std::string &prop, Plan &plan) {
         o.n.push_back((int64_t)(r.chance(0.5) ? r.below(5) : 0));   // edit before
         o.n.push_back((int64_t)r.chance(0.2));   // the xcm_accept_a map switches one feature of the server's policy off
         o.n.push_back((int64_t)(r.chance(0.3) ? 1 + r.below(2) : 0));   // named network namespace on the connecting side
+        o.n.push_back((int64_t)(r.chance(0.25) ? 1 + r.below(6) : 0));  // credential files rewritten while they are being loaded: this many consecutive load attempts see a change
         plan.ops.push_back(o);
     }
     p["step_budget"] = 900000;
@@ -122,6 +125,10 @@ static void build_pki(const Plan &plan) {
         const Cert *iss = id.issuer == ISS_R0 ? k.R0.get() : id.issuer == ISS_I0 ? k.I0.get() : k.R1.get();
         id.leaf = make_cert(s, iss);
         if (id.revoked) rev[id.issuer].push_back(s.serial);
+        CertSpec tw = s;
+        tw.cn = id.cn + "-twin"; tw.serial = serial++;
+        id.twin = make_cert(tw, iss);
+        if (id.revoked) rev[id.issuer].push_back(tw.serial);
         k.ids.push_back(std::move(id));
     }
     if (k.inter_revoked) rev[ISS_R0].push_back(50);
@@ -134,9 +141,10 @@ static std::string pad_to(std::string s, size_t n) { while (s.size() < n) s += '
 static std::string cur_dir() { return TX->dir_gen ? "/certB" : "/certA"; }
 
 // writes a credential set into a directory; all files are padded to a fixed size so that an in-place rewrite never changes st_size
-static void write_set(const std::string &dir, const SideCfg &c, int how, const std::string &ns = "") {
+static void write_set(const std::string &dir, const SideCfg &c, int how, const std::string &ns = "", bool twin = false) {
     const Ident &id = TX->pki.ids[(size_t)c.ident];
-    struct F { const char *name; std::string data; } files[] = {{"cert", pad_to(cert_pem(id), 2600)}, {"key", pad_to(id.leaf->key_pem, 400)}, {"tc", pad_to(tc_pem(c.tc_mask), 1400)}, {"crl", pad_to(TX->pki.crl_all, 2200)}};
+    const Cert &leaf = twin ? *id.twin : *id.leaf;
+    struct F { const char *name; std::string data; } files[] = {{"cert", pad_to(leaf.cert_pem + (id.issuer == ISS_I0 ? TX->pki.I0->cert_pem : std::string()), 2600)}, {"key", pad_to(leaf.key_pem, 400)}, {"tc", pad_to(tc_pem(c.tc_mask), 1400)}, {"crl", pad_to(TX->pki.crl_all, 2200)}};
     K->mkdir_p(dir);
     for (auto &f : files) {
         std::string path = dir + "/" + f.name + (ns.empty() ? "" : "_" + ns) + ".pem";   // per-namespace naming: cert_<ns>.pem
@@ -314,7 +322,22 @@ static void program(const Plan *pl) {
             Task *t = cur();
             int saved = t->netns;
             if (st.tp == "utls" || st.cli_ns) t->netns = 1;
+            bool gen_twin = false;   // which of the two equivalent identities the client's files hold
+            int flips_left = st.flips;
+            std::string flip_dir = cc.supply == SUP_DIR ? strf("/cdir%d", sidx) : cfiles;
+            if (st.flips) {
+                K->on_lib_fopen = [&](const char *path) {
+                    // every load attempt opens the key once: the set changes under it, attempt after attempt
+                    std::string pth = path;
+                    if (flips_left <= 0 || pth.compare(0, flip_dir.size(), flip_dir) != 0 || pth.size() < 7 || pth.compare(pth.size() - 7, 7, "key.pem") != 0) return;
+                    flips_left--;
+                    gen_twin = !gen_twin;
+                    write_set(flip_dir, cc, 1, "", gen_twin);
+                    G->count("fault.credentials_rewritten_during_load");
+                };
+            }
             XSock *cli = x_connect(addr, cm, true, strf("cli%d", sidx));
+            K->on_lib_fopen = nullptr;
             t->netns = saved;
             int cli_errno = errno;
             xcm_attr_map_destroy(cm);
@@ -392,9 +415,40 @@ static void program(const Plan *pl) {
                         G->count("probe.tls_established");
                         // C18: each side presents the identity designated at the time of its creating call
                         if ((tls_client_side(true, st.reversed) || cc.auth) && C.seen_cn != sid.cn) G->violation("C18.wrong_identity", "set-up %d: the server socket was created with %s designated (%s), the client sees \"%s\" %s", sidx, sid.cn.c_str(), st.srv.supply == SUP_DIR ? "directory files" : st.srv.supply == SUP_FILES ? "per-socket files" : st.srv.supply == SUP_VALUE ? "by value" : "cert+key by value, rest from the directory", C.seen_cn.c_str(), ctx.c_str());
-                        if ((tls_client_side(false, st.reversed) || eff_srv.auth) && S.seen_cn != cid.cn) G->violation("C18.wrong_identity", "set-up %d: the client connected with %s designated (%s), the server sees \"%s\" %s", sidx, cid.cn.c_str(), cc.supply == SUP_DIR ? "directory files" : cc.supply == SUP_FILES ? "per-socket files" : cc.supply == SUP_VALUE ? "by value" : "cert+key by value, rest from the directory", S.seen_cn.c_str(), ctx.c_str());
+                        if ((tls_client_side(false, st.reversed) || eff_srv.auth) && S.seen_cn != cid.cn && !(st.flips && S.seen_cn == cid.cn + "-twin")) G->violation("C18.wrong_identity", "set-up %d: the client connected with %s designated (%s), the server sees \"%s\" %s", sidx, cid.cn.c_str(), cc.supply == SUP_DIR ? "directory files" : cc.supply == SUP_FILES ? "per-socket files" : cc.supply == SUP_VALUE ? "by value" : "cert+key by value, rest from the directory", S.seen_cn.c_str(), ctx.c_str());
                     }
                 }
+            }
+            // ---- the files were rewritten while the first socket loaded them: whatever that load ended up with, a socket created
+            //      now, with the files at rest, presents what they hold now (a context cached from a torn read must not be reused)
+            if (st.flips && judge && !st.accept_override && !st.accept_relax && C.est && S.est && !S.seen_cn.empty() && (tls_client_side(false, st.reversed) || eff_srv.auth) && !G->stopping) {
+                struct xcm_attr_map *cm2 = attrs_for(cc, sid, stream, st.reversed ? 0 : -1, true, true, cfiles);
+                std::string saved_env = K->env["XCM_TLS_CERT"];
+                if (cc.supply == SUP_DIR) K->env["XCM_TLS_CERT"] = flip_dir;
+                int saved2 = t->netns;
+                if (st.tp == "utls") t->netns = 1;   // (utls: the other namespace makes it take its TLS leg, as for the first connection)
+                XSock *cli2 = x_connect(addr, cm2, true, strf("cli%d.again", sidx));
+                t->netns = saved2;
+                K->env["XCM_TLS_CERT"] = saved_env;
+                xcm_attr_map_destroy(cm2);
+                if (cli2->s) {
+                    SideRun C2, S2;
+                    C2.x = cli2;
+                    std::string ctag2 = strf("CTG2-%d", sidx), stag2 = strf("STG2-%d", sidx);
+                    for (int round = 0; round < 120 && !G->stopping; round++) {
+                        if (!S2.x) { XSock *a = x_accept(srv, nullptr, strf("acc%d.again", sidx)); if (a) S2.x = a; else if (errno != EAGAIN) break; }
+                        step_side(C2, ctag2, stag2, stream);
+                        if (S2.x) step_side(S2, stag2, ctag2, stream);
+                        if (C2.term || C2.eof || S2.term || S2.eof || (C2.got_tag && S2.got_tag)) break;
+                        task_sleep(500 * US);
+                    }
+                    std::string want = cid.cn + (gen_twin ? "-twin" : "");
+                    G->count("probe.tls_followup_after_torn_load");
+                    if (!S2.est) G->violation("C18.unusable_after_rewrite", "set-up %d: the credential files were rewritten %d time(s) while an earlier socket loaded them and have been at rest since (a complete, valid set of \"%s\"); a new connection with the same designation fails (client %s, server %s)", sidx, st.flips, want.c_str(), strerror(C2.term), strerror(S2.term));
+                    else if (S2.seen_cn != want) G->violation("C18.wrong_identity", "set-up %d: the client's files hold \"%s\" (rewritten %d time(s) while an earlier socket loaded them, at rest since); a socket created now presents \"%s\"", sidx, want.c_str(), st.flips, S2.seen_cn.c_str());
+                    if (S2.x) x_close(S2.x);
+                    x_close(cli2);
+                } else G->violation("C18.unusable_after_rewrite", "set-up %d: xcm_connect_a with credential files at rest (rewritten during an earlier load) failed: %s", sidx, strerror(errno));
             }
             // ---- established connections never change identity: overwrite the designated files and look again
             if (C.est && S.est && st.keep_open) {
@@ -432,6 +486,7 @@ static void setup(const Plan &plan) {
         if (st.srv.supply == SUP_MIXED) st.srv.supply = SUP_DIR;   // (the server's directory is the process-wide one)
         st.accept_override = op.arg(18) != 0; st.keep_open = op.arg(19) != 0; st.reversed = op.arg(20) != 0; st.edit_before = (int)op.arg(21);
         st.cli_ns = (st.cli.supply == SUP_DIR || st.cli.supply == SUP_MIXED) ? (int)op.arg(23) : 0;
+        st.flips = (st.cli_ns == 0 && (st.cli.supply == SUP_DIR || st.cli.supply == SUP_FILES) && !st.cli.invalid) ? (int)op.arg(24) : 0;
         st.accept_relax = op.arg(22) != 0 && !st.accept_override && !st.srv.invalid && st.srv.auth;
         if (st.srv.invalid && st.cli.invalid) st.cli.invalid = 0;
         TX->setups.push_back(st);
